@@ -349,10 +349,15 @@ func (q *ProvideQueue) DrainDatastore(ctx context.Context, d ds.Batching) error 
 
 		// Key format: "/position/prefix"
 		parts := strings.Split(strings.TrimPrefix(result.Key, "/"), "/")
-		if len(parts) != 2 {
+		var prefix bitstr.Key
+		switch len(parts) {
+		case 1:
+			// "/position": the empty prefix (the trailing "/" is cleaned away).
+		case 2:
+			prefix = bitstr.Key(parts[1])
+		default:
 			continue // Skip invalid keys
 		}
-		prefix := bitstr.Key(parts[1])
 
 		// Decode concatenated multihashes
 		keys, err := decodeMultihashes(result.Value)
